@@ -10,12 +10,40 @@
                   FakePreSharedKeyExtension binders have a TLS 1.3 hash size (otherwise Read refuses them)
      wf_ext e   : state_ok and every field within its wire limit (Model/ExtSpec.v)
      rt_ok e    : wf_ext, present on the wire, the type has Write, vectors not below the RFC minimum sizes *)
-From UV Require Import Base.Common Model.Wire Model.Varint Model.Ext Model.ExtSpec Proofs.WireP Proofs.ExtP.
+From UV Require Import Base.Common Model.Wire Model.Varint Model.Ext Model.ExtSpec Model.ExtObj Proofs.WireP Proofs.ExtP.
 
 (* Len() equals the number of bytes Read() writes — all 31 types, any field values. *)
 Theorem C08_len_read : forall e n b, state_ok e = true -> ext_read e n = Ok b -> blen b = ext_len e.
 Proof. exact len_read. Qed.
 Print Assumptions C08_len_read.
+
+(* The premise state_ok cannot be dropped: the code keeps the first Len() of a
+   UtlsPreSharedKeyExtension in the unexported cachedLength, and editing Identities/Binders
+   afterwards makes Len() and Read() disagree on the UNCHANGED tree (runner: key
+   UtlsPreSharedKeyExtension/after-edit/*, fixes/C08.findings.txt). Full statement, refutation
+   by that witness, and C08_len_read above as the strongest true conditional. *)
+Definition C08_len_read_any_state_full : Prop :=
+  forall e n b, ext_read e n = Ok b -> blen b = ext_len e.
+Definition C08_stale_psk : ext := EUtlsPreSharedKey true (Some 131) true [([126], 5)] [zbytes 64].
+Theorem C08_len_read_any_state_refuted : ~ C08_len_read_any_state_full.
+Proof.
+  intros H.
+  assert (E : ext_read C08_stale_psk 130 = Ok (match ext_read C08_stale_psk 130 with Ok b => b | _ => [] end))
+    by (vm_compute; reflexivity).
+  apply H in E. vm_compute in E. discriminate E.
+Qed.
+Print Assumptions C08_len_read_any_state_refuted.
+
+(* Objects edited after they were encoded once (Model/ExtObj.v: what the object serves is
+   obj_view first cur — QUIC transport parameters keep their first non-empty encoding):
+   Len() and Read() still agree, and short buffers are still refused. *)
+Theorem C08_len_read_after_edit : forall first cur n b, state_ok (obj_view first cur) = true ->
+  obj_read first cur n = Ok b -> blen b = obj_len first cur.
+Proof. exact (fun first cur => len_read (obj_view first cur)). Qed.
+Theorem C08_read_short_after_edit : forall first cur n, state_ok (obj_view first cur) = true ->
+  n < obj_len first cur -> obj_read first cur n = Err E_SHORT.
+Proof. exact (fun first cur => read_short (obj_view first cur)). Qed.
+Print Assumptions C08_read_short_after_edit.
 
 (* Any shorter buffer: io.ErrShortBuffer, no bytes. *)
 Theorem C08_read_short : forall e n, state_ok e = true -> n < ext_len e -> ext_read e n = Err E_SHORT.
